@@ -206,7 +206,13 @@ func zzRegions(c zzCfg, in [][]string) {
 	zzverif.Region("row-with-empty-key", emptyKey)
 	zzverif.Region("no-primary-key", len(zzPKs[c.pk]) == 0)
 	zzverif.Region("composite-key", len(zzPKs[c.pk]) > 1)
-	zzverif.Region("column-removed", c.removed >= 0)
+	beforeKey := false
+	for _, k := range kc {
+		if c.removed >= 0 && c.removed < k {
+			beforeKey = true
+		}
+	}
+	zzverif.Region("removed-column-before-a-key-column", beforeKey)
 }
 
 func Harness_C19_blocks() {
